@@ -37,8 +37,11 @@ HOLE_WITNESSES = [
      "W": [[1, 0, 0, 0, 0], [0, 2, 0, 3, 0], [0, 1, 1, 0, 0], [0, 1, 5, 1, 0], [0, 0, 0, 0, 0]]},
 ]
 ASSUMPTIONS = [
-    "extension (1): np.argsort is compared as `a permutation that sorts the logged keys`; the permutation itself is "
-    "compared with the model's stable one only when the keys are pairwise different",
+    "extension (1): np.argsort is only assumed to return `a permutation that sorts the logged keys` (checked on every "
+    "logged call, in Python and by the model's sortsB): the model is run with the code's OWN argsort results "
+    "(Infretis.Perm.infRetisGiven, driver op `given`) and compared in full - result, equal-weight decision, sorted "
+    "matrix, block list, routine per block - also on ties and outside the family; the permutation is compared with "
+    "the model's stable one only when the keys are pairwise different",
     "extension (2): random_prob runs with a scripted generator object (choice / random only); weights are powers of "
     "two (all float operations exact) or from {1,2,3,5,17} with uniform numbers k/64, k odd (no acceptance test "
     "closer than 5e-5 to equality); longdouble accumulation of 0/1 matrices and one division are exact to 1e-15",
@@ -199,6 +202,19 @@ def gen_prep_cases(rng, quick):
         W = B.build(off, seq, B.weight_fun(rng, mode, m, B.WMILD if m > 5 else B.WSET), wminus=rng.choice(B.WSET))
         locks = B.random_locks(rng, off + m, True, rng.choice((0.0, 0.2, 0.5)))
         cases.append({"kind": "family", "off": off, "W": W, "locks": locks})
+    # audit pass: many live paths that END AT THE SAME ENSEMBLE with DIFFERENT weights (argsort ties between
+    # different rows) and 8..11 plus ensembles, where numpy's default argsort really leaves the stable order
+    for _ in range(110 if quick else 2500):
+        m = rng.choice((8, 8, 8, 9) if quick else (8, 8, 9, 10, 11))
+        nd = rng.choice((1, 2, 2, 3))
+        vals = sorted(rng.sample(range(1, m + 1), nd) + [m])
+        lasts = sorted(rng.choice(vals) for _k in range(m))
+        lasts = [max(v, k + 1) for k, v in enumerate(lasts)]
+        seq = B.random_valid(rng, lasts)
+        mode = rng.choice(("free", "free", "rowconst"))
+        W = B.build(1, seq, B.weight_fun(rng, mode, m, B.WMILD), wminus=rng.choice(B.WSET))
+        locks = B.random_locks(rng, 1 + m, True, rng.choice((0.0, 0.0, 0.1)))
+        cases.append({"kind": "family-ties", "off": 1, "W": W, "locks": locks})
     # blocks of 13/14 free rows: the Monte-Carlo decision and the argument handed to random_prob
     for _ in range(3 if quick else 25):
         m = rng.choice((13, 14, 15))
@@ -231,21 +247,105 @@ def _tie_sensitive(rec, keys_model):
     return any(len(set(k)) != len(k) for k in keys_model)
 
 
+def given_line(c, r1, r2):
+    return f"given {c['off']} {tok_list(c['locks'])} {tok_mat(c['W'])} {tok_list(r1)} {tok_list(r2)}"
+
+
+def parse_given(line):
+    """driver answer of `given` -> dict(res, offset, m, sort_idx, equal, blocks, sorts, branches, sorted)"""
+    f = [x.strip() for x in line.split(" | ")]
+    d = {"res": f[0], "empty": f[1] == "empty"}
+    if not d["empty"]:
+        d["offset"], d["m"] = (int(x) for x in f[1].split())
+        d["sort_idx"], _ = parse_list(f[2].split())
+        d["equal"] = f[3] == "1"
+        d["blocks"] = f[4]
+    d["sorts"] = f[5].split()
+    d["branches"] = f[6].split()[1:]
+    d["sorted"] = parse_mat(f[7].split())[0] if not d["empty"] else []
+    return d
+
+
+def compare_given(ctx, rep, rec, g, what="given"):
+    """the real inf_retis (record `rec` of code_prep) against the model run with the code's OWN argsort results:
+    no tie-order caveat, so everything is compared - kind, matrix, equal-weight decision, sorted matrix handed to
+    find_blocks, block list, routine per block.  -> True if comparable and equal"""
+    if g["sorts"] != ["1", "1"]:
+        ctx.disagree({"fn": what + ": model says the logged argsort result does not sort its keys", **rep},
+                     [r for (_k, r) in rec["sorts"][:2]], g["sorts"])
+        return False
+    mt = g["res"].split()
+    mkind = mt[0] if mt[0] in ("ok", "mc") else g["res"].strip()
+    ckind = rec["kind"]
+    if ckind == "ok" and any(nm == "random_prob" for nm, _ in rec["calls"]):
+        ckind = "mc"
+    if mkind != ckind:
+        if ckind == "ok" and mkind == "err:assert":
+            P = rec["P"]
+            idle = np.array(rep["locks"]) == 0
+            blk = P[idle][:, idle]
+            dev = max(np.abs(blk.sum(axis=0) - 1).max(), np.abs(blk.sum(axis=1) - 1).max())
+            if dev > 1e-12:
+                ctx.hit(what + ":allclose-tolerance-not-compared")
+                return False
+        ctx.disagree({"fn": what + ": inf_retis kind with the code's argsort results", **rep}, ckind, g["res"][:200])
+        return False
+    ok = True
+    if ckind == "ok":
+        Mm, _ = parse_mat(mt, 1)
+        if np.shape(Mm) != rec["P"].shape or np.abs(np.array(Mm) - rec["P"]).max() > TOL:
+            ctx.disagree({"fn": what + ": inf_retis value with the code's argsort results", **rep},
+                         "values differ", g["res"][:200])
+            ok = False
+    elif ckind == "mc":
+        if sorted(int(x) for x in mt[2:]) != sorted(n for nm, n in rec["calls"] if nm == "random_prob"):
+            ctx.disagree({"fn": what + ": Monte-Carlo blocks", **rep},
+                         [n for nm, n in rec["calls"] if nm == "random_prob"], g["res"][:100])
+            ok = False
+    if ckind in ("ok", "mc") and not g["empty"]:
+        code_equal = rec["blocks"] is None
+        if code_equal != g["equal"]:
+            ctx.disagree({"fn": what + ": equal-weight decision", **rep}, code_equal, g["equal"])
+            return False
+        if not code_equal:
+            cb = "tuple" if isinstance(rec["blocks"], tuple) else \
+                tok_list([f"{int(a)},{int(b)},{int(d)}" for (a, b, d) in rec["blocks"]])
+            if rec["find_offset"] != g["offset"]:
+                ctx.disagree({"fn": what + ": offset", **rep}, rec["find_offset"], g["offset"])
+                ok = False
+            if cb != g["blocks"]:
+                ctx.disagree({"fn": what + ": find_blocks", **rep}, cb, g["blocks"])
+                ok = False
+            S = rec.get("sorted")
+            if S is not None and (np.shape(S) != np.shape(g["sorted"]) or not np.array_equal(S, np.array(g["sorted"]))):
+                ctx.disagree({"fn": what + ": sorted matrix handed to find_blocks", **rep}, S.tolist(), g["sorted"])
+                ok = False
+        cbr = _branches_of(rec)
+        if cbr is not None and "?" not in cbr and cbr != g["branches"]:
+            ctx.disagree({"fn": what + ": routine per block", **rep}, cbr, g["branches"])
+            ok = False
+    return ok
+
+
 def prep_tie(ctx, rng):
     cases = gen_prep_cases(rng, ctx.quick)
     recs = [code_prep(c["W"], c["locks"], c["off"]) for c in cases]
     if not ctx._driver_ok:
         return
     lines = []
-    for c in cases:
+    for c, rec in zip(cases, recs):
         lines.append(f"prep {c['off']} {tok_list(c['locks'])} {tok_mat(c['W'])}")
         lines.append(f"infretis {c['off']} {tok_list(c['locks'])} {tok_mat(c['W'])}")
+        if len(rec["sorts"]) >= 2:
+            lines.append(given_line(c, rec["sorts"][0][1], rec["sorts"][1][1]))
+        else:
+            lines.append("noop")
     out = ctx.driver(lines)
     mc_args = []
     for k, (c, rec) in enumerate(zip(cases, recs)):
         rep = {"kind": "prep:" + c["kind"], "off": c["off"], "W": c["W"], "locks": c["locks"]}
-        pm = out[2 * k]
-        body, _, brs = out[2 * k + 1].partition(" | ")
+        pm = out[3 * k]
+        body, _, brs = out[3 * k + 1].partition(" | ")
         mbr = brs.split()[1:]
         ctx.count(1, branch="prep:" + c["kind"])
         if pm == "empty":
@@ -253,7 +353,6 @@ def prep_tie(ctx, rng):
         f = [x.strip() for x in pm.split(" | ")]
         offset, m = (int(x) for x in f[0].split())
         sort_idx, _ = parse_list(f[1].split())
-        equal = f[2] == "1"
         km, _ = parse_list(f[4].split())
         kp, _ = parse_list(f[5].split())
         sorts = rec["sorts"]
@@ -266,9 +365,13 @@ def prep_tie(ctx, rng):
         if k1 != km or k2 != kp:
             ctx.disagree({"fn": "prep: argsort keys", **rep}, [k1, k2], [km, kp])
             continue
+        bad_sort = False
         for keys, res in ((k1, r1), (k2, r2)):
             if sorted(res) != list(range(len(keys))) or any(keys[res[i]] > keys[res[i + 1]] for i in range(len(res) - 1)):
                 ctx.fail("C02:argsort-not-a-sort", f"np.argsort returned {res} for keys {keys}", rep)
+                bad_sort = True
+        if bad_sort:
+            continue
         ties = len(set(k1)) != len(k1) or len(set(k2)) != len(k2)
         code_idx = r1 + [x + offset for x in r2]
         if not ties:
@@ -276,27 +379,25 @@ def prep_tie(ctx, rng):
             if code_idx != sort_idx:
                 ctx.disagree({"fn": "prep: sort permutation", **rep}, code_idx, sort_idx)
                 continue
-        elif c["kind"] == "outside":
-            continue        # out of family + ties: everything downstream depends on numpy's tie order
-        if rec["kind"] not in ("ok",):
+        elif code_idx != sort_idx:
+            ctx.hit("prep:code-tie-order-differs-from-stable:" + c["kind"])
+        # the model with the code's own argsort results (Infretis.Perm.infRetisGiven - the function the theorems
+        # `infRetis_any_tie_order*` are about): compared in full, ties or not, in the family or outside
+        g = parse_given(out[3 * k + 2])
+        if g["empty"]:
             continue
-        code_equal = rec["blocks"] is None
-        if code_equal != equal:
-            ctx.disagree({"fn": "prep: equal-weight decision", **rep}, code_equal, equal)
+        ctx.hit("prep:given-compared")
+        if g["sort_idx"] != code_idx:
+            ctx.disagree({"fn": "prep: sort_idx assembled from the argsort results", **rep}, code_idx, g["sort_idx"])
             continue
-        if not equal:
-            mb = f[3]
-            cb = "tuple" if isinstance(rec["blocks"], tuple) else \
-                tok_list([f"{int(a)},{int(b)},{int(d)}" for (a, b, d) in rec["blocks"]])
-            ctx.hit("prep:blocks-compared")
-            if rec["find_offset"] != offset:
-                ctx.disagree({"fn": "prep: offset", **rep}, rec["find_offset"], offset)
-            if cb != mb:
-                ctx.disagree({"fn": "prep: find_blocks", **rep}, cb, mb)
-                continue
-        cbr = _branches_of(rec)
-        if cbr is not None and cbr != mbr:
-            ctx.disagree({"fn": "prep: routine per block", **rep}, cbr, mbr)
+        if not compare_given(ctx, rep, rec, g, "prep"):
+            continue
+        if not ties or c["kind"].startswith("family"):
+            # stable order and code order must give the same final answer (in the family: theorem; without ties: same order)
+            if body.split()[0] != g["res"].split()[0]:
+                ctx.disagree({"fn": "prep: stable-order result vs code-order result", **rep}, g["res"][:120], body[:120])
+            elif mbr != g["branches"]:
+                ctx.disagree({"fn": "prep: stable-order branches vs code-order branches", **rep}, g["branches"], mbr)
         for a in rec.get("random_args", []):
             ctx.hit("prep:random_prob-argument")
             if c["kind"].startswith("family") and not np.all(np.diag(a) != 0):
@@ -485,6 +586,21 @@ def _fresh_inf(S, L):
     return np.asarray(fr.inf_retis(np.abs(S.copy()), L.copy()), dtype=float)
 
 
+class _LogGen(np.random.Generator):
+    """a genuine numpy generator that records every probability vector handed to choice() together with the
+    sampler's state and locks at that moment (pick / pick_traj_ens draw from `self.prob` through it)"""
+
+    def __init__(self, bitgen):
+        super().__init__(bitgen)
+        self.log = []
+        self.snap = None
+
+    def choice(self, a, size=None, replace=True, p=None, axis=0, shuffle=True):
+        if p is not None and self.snap is not None:
+            self.log.append((np.array(p, dtype=float),) + self.snap())
+        return super().choice(a, size=size, replace=replace, p=p, axis=axis, shuffle=shuffle)
+
+
 def cache_history(label, nops, script=None):
     """drive one real REPEX_state; -> (init, ops, observations, failures).  With `script` the recorded operations
     are replayed instead of drawn."""
@@ -508,6 +624,21 @@ def cache_history(label, nops, script=None):
     st.toinitiate = -1
     st._last_prob = None
     n = size + 1
+    # audit pass: the REAL pick_traj_ens / pick / pick_lock(re-issue) are operations of the history; their swap and
+    # lock calls are logged (instance wrappers) and become the model operations `sl t e` / `ri t e`
+    st.rgen = _LogGen(np.random.PCG64(sum(map(ord, label))))
+    st.rgen.snap = lambda: (st.state.copy(), st._locks.copy())
+    calls = []
+    _osw, _olk = st.swap, st.lock
+
+    def _swap(t, e):
+        calls.append(("swap", int(t), int(e)))
+        return _osw(t, e)
+
+    def _lock(e):
+        calls.append(("lock", int(e)))
+        return _olk(e)
+    st.swap, st.lock = _swap, _lock
     init = {"n": n, "toinit": -1, "locks": [int(x) for x in st._locks],
             "trajs": [t.path_number if hasattr(t, "path_number") else -1 for t in st._trajs],
             "W": [[int(x) for x in r] for r in st.state]}
@@ -524,7 +655,7 @@ def cache_history(label, nops, script=None):
             else:
                 menu = ["r", "r", "p"]
                 if idle:
-                    menu += ["l", "sl", "sl", "sl"]
+                    menu += ["l", "sl", "sl", "pk", "pk", "pr", "pr", "ri"]
                 if busy:
                     menu += ["u", "a", "a", "a"]
                 menu += ["s"]
@@ -535,6 +666,8 @@ def cache_history(label, nops, script=None):
                 kind = rng.choice(menu)
                 if kind == "r":
                     op = ["r"]
+                elif kind in ("pk", "pr", "ri"):
+                    op = [kind]
                 elif kind == "p":
                     op = ["p"]
                 elif kind == "s":
@@ -566,6 +699,79 @@ def cache_history(label, nops, script=None):
                         op = ["a", -1, pn[0] + 1, [rng.choice(B.WSET)]]
                     else:
                         op = ["a", e - 1, pn[0] + 1, [int(x) for x in B._valid_for(rng, size, e - 1, wf)]]
+            if op[0] in ("pk", "pr", "ri"):
+                # ---- a REAL sampler operation; translated into model operations from its logged swap/lock calls
+                del calls[:]
+                del st.rgen.log[:]
+                try:
+                    P = np.asarray(st.prob, dtype=float)
+                    opts = [(t, e) for t in idle for e in idle if P[t, e] > 1e-12]
+                    if not opts:
+                        continue
+                    if op[0] == "pk":
+                        e = rng.choice(sorted({e for _t, e in opts}))
+                        st.pick_traj_ens(e)
+                    elif op[0] == "pr":
+                        st.pick()
+                    else:
+                        t, e = rng.choice(opts)
+                        st.locked0 = [([e], [str(st._trajs[t].path_number)])]
+                        st.pick_lock()
+                except Exception as ex:  # noqa: BLE001
+                    fails.append(("C02:exception-in-family", f"real {op[0]} raised {err_kind(ex)}", step))
+                    break
+                pairs = []
+                ok_shape = len(calls) % 2 == 0 and len(calls) >= 2
+                for q in range(0, len(calls) - 1, 2):
+                    a_, b_ = calls[q], calls[q + 1]
+                    if a_[0] != "swap" or b_[0] != "lock" or a_[2] != b_[1]:
+                        ok_shape = False
+                        break
+                    pairs.append((a_[1], a_[2]))
+                if not ok_shape:
+                    fails.append(("C02:pick-not-read-swap-lock",
+                                  f"real {op[0]} performed {calls} instead of swap(traj, ens); lock(ens) pairs", step))
+                    break
+                # every probability vector drawn from is the CURRENT matrix (normalised) at the moment of the draw
+                for (pv, S_, L_) in st.rgen.log:
+                    try:
+                        F = _fresh_inf(S_, L_)
+                    except Exception:  # noqa: BLE001
+                        continue
+                    if len(pv) == n * n:
+                        want = F.flatten() / F.sum()
+                    else:
+                        col = [e_ for (_t, e_) in pairs if abs(F[:, e_].sum()) > 0]
+                        want = None
+                        for e_ in [e2 for (_t2, e2) in pairs]:
+                            cand = F[:, e_] / F[:, e_].sum() if F[:, e_].sum() else None
+                            if cand is not None and np.allclose(pv, cand, rtol=0, atol=1e-12):
+                                want = cand
+                        if want is None:
+                            fails.append(("C02:pick-uses-stale-matrix",
+                                          f"real {op[0]} (step {step}) drew a path from a column that is no column of "
+                                          f"inf_retis(abs(state), locks) at that moment", step))
+                            break
+                    if not np.allclose(pv, want, rtol=0, atol=1e-12):
+                        fails.append(("C02:pick-uses-stale-matrix",
+                                      f"real {op[0]} (step {step}) drew from a matrix that is not "
+                                      f"inf_retis(abs(state), locks) at that moment", step))
+                        break
+                if fails:
+                    break
+                tag = "ri" if op[0] == "ri" else "sl"
+                if op[0] == "ri" and st.rgen.log:
+                    fails.append(("C02:reissue-reads-prob", "pick_lock re-issue drew from the probability matrix", step))
+                    break
+                for q, (t_, e_) in enumerate(pairs):
+                    ops.append([tag, t_, e_])
+                    if q < len(pairs) - 1:
+                        obs.append({"kind": "ok", "skip": True})
+                cached = None if st._last_prob is None else np.asarray(st._last_prob, dtype=float).copy()
+                obs.append({"kind": "ok", "none": st._last_prob is None, "locks": "".join(str(int(x)) for x in st._locks),
+                            "cached": cached, "handed": None, "real": op[0]})
+                bare_pending = False
+                continue
             ops.append(op)
             was_pending = bare_pending      # a bare swap() has happened since the last invalidation
             handed = []            # (matrix handed out, |state| and locks at that moment)
@@ -662,6 +868,9 @@ def cache_tie(ctx):
         hist.append((label, init, ops, obs))
         for o in ops[: len(obs)]:
             ctx.hit("cache:op=" + o[0])
+        for o in obs:
+            if o.get("real"):
+                ctx.hit("cache:real-op=" + o["real"])
         ctx.count(len(obs), branch="cache_history_step")
         ctx.distinct(("cache", label))
         for sig, what, step in fails:
@@ -680,6 +889,17 @@ def cache_tie(ctx):
         mcache = None
         for k, (o, it) in enumerate(zip(obs, items)):
             ctx.hit("cache:model-compared")
+            if o.get("skip"):
+                if it.startswith("err") or it == "nan":
+                    ctx.disagree({**rep, "step": k}, "ok", it[:80])
+                    break
+                parts = it.split(" # ")
+                if parts[0].split()[0] == "N":
+                    mcache = None
+                elif len(parts) > 1:
+                    t_ = parts[-1].split()
+                    mcache = np.array(parse_mat(t_, 1)[0]) if t_[0] == "ok" else parts[-1]
+                continue
             if o["kind"] != "ok" or it.startswith("err") or it == "nan":
                 if o["kind"] != it:
                     ctx.disagree({**rep, "step": k}, o["kind"], it[:80])
@@ -703,6 +923,10 @@ def cache_tie(ctx):
                         or np.abs(mcache - o["cached"]).max() > TOL:
                     ctx.disagree({**rep, "step": k}, "cached matrix differs", parts[-1][:200])
                     bad = True
+            if o.get("handed") is None:
+                if bad:
+                    break
+                continue
             if not bad and ops[k][0] in ("r", "sl", "a", "s") or (ops[k][0] == "p" and o["handed"]):
                 if len(uses) != len(o["handed"]):
                     ctx.disagree({**rep, "step": k}, f"{len(o['handed'])} matrices handed out", f"{len(uses)} uses")
